@@ -63,7 +63,7 @@ def gen(rng):
         rs = rng.choice([x for x in STATES if x != 'absent'])
         t0 = '/.Trash'
         if rs == 'sticky':
-            steps.append(['d', t0, 0o1777])
+            steps.append(['d', t0, rng.choice([0o1777, 0o1777, 0o3777, 0o5777])])
         elif rs == 'nonsticky':
             steps.append(['d', t0, 0o777])
         elif rs == 'nonsticky_sgid':
